@@ -21,6 +21,8 @@ Structural clauses decided (each a necessary condition of the property):
     (`chars.next() == Some(&b'~')`) has consumed a character; on the branch where the comparison fails the decoder must stop
     (error / end of data) and not go on decoding — otherwise a data character is silently lost (`<` is a valid ASCII85 digit, so a
     stream whose encoding starts with `<` loses its second character).
+ R8 CCITT coding schemes: the dispatch on /K (K = 0 one-dimensional, K > 0 mixed, K < 0 two-dimensional Group 4) gives each of the three
+    schemes its own decoder; two arms that construct the same decoder decode one scheme as if it were the other.
 Not decided: equality of decoded bytes with a reference decoder.
 """
 from .. import lib as L
@@ -298,6 +300,7 @@ def r5(ctx):
 
 
 def run(ctx):
+    r8_ccitt_k_dispatch(ctx)
     r6_lzw_width_cap(ctx)
     r7_lookahead_not_dropped(ctx)
     for r in (r1, r2, r3, r4, r5):
@@ -410,3 +413,30 @@ def r7_lookahead_not_dropped(ctx):
         else:
             ctx.ok("R7", key, "on a mismatch the decoder stops (error / end) instead of continuing without the consumed character", fn.where(cb))
     ctx.floor("R7", "compare-only look-aheads in the ASCII85 decoder", n, 1)
+
+
+def r8_ccitt_k_dispatch(ctx):
+    from .. import tokens as TK
+    facts = ctx.facts
+    fid = "parser::filter_impls::ccitt::decode_ccitt"
+    fn = ctx.fn(fid, "R8")
+    ms = [m for m in facts.matches.get(fid, []) if m["sty"].endswith("CcittK")]
+    if not ctx.floor("R8", "dispatch on CcittK in decode_ccitt", len(ms), 1):
+        return
+    m = ms[0]
+    decs = {}
+    for i, a in enumerate(m["arms"]):
+        v = (a["pat"][1].get("def", "") if a["pat"][0] == "path" and isinstance(a["pat"][1], dict) else "_").split("::")[-1]
+        lo, hi = TK.arm_range(fn, m, i)
+        ctors = sorted(set((c.get("p") or c.get("r") or "") for f, b, c, aa, d in TK.calls_in_lines(facts, fn, lo, hi)
+                           if L.short(c.get("p") or "") == "new"))
+        decs[v] = (tuple(ctors), "%s:%d" % (m["file"], a["line"]))
+    seen = {}
+    for v, (ct, where) in decs.items():
+        key = "decode_ccitt:K-arm:%s" % v
+        if ct in seen:
+            ctx.violation("R8", key, "the %s arm of the /K dispatch constructs the same decoder as the %s arm (%s): a stream coded with "
+                          "one scheme is decoded as if it used the other, giving wrong pixels" % (v, seen[ct], ", ".join(L.short(x) for x in ct) or "?"), where)
+        else:
+            seen[ct] = v
+            ctx.ok("R8", key, "own decoder %s" % ", ".join(L.short(x) for x in ct), where)
